@@ -33,7 +33,7 @@ REAL = common.REAL_ALL
 STUBS = common.STUBS_ALL
 INTERLEAVING_MEASURE = 'distinct (monitor kind, mode, number of updates or batches) tuples'
 PROBES = ['law_not_eventually', 'law_not_once', 'law_implies', 'law_eventually_eventually', 'law_once_once', 'law_since_expansion',
-          'law_until_expansion', 'unbounded_version', 'online', 'pastified', 'dense_time', 'stateful_operand', 'bounds_with_explicit_units', 'same_numerals_different_unit']
+          'law_until_expansion', 'unbounded_version', 'online', 'pastified', 'dense_time', 'stateful_operand', 'bounds_with_explicit_units', 'same_numerals_different_unit', 'time_axis_scaled_to_sub_microsecond_ticks']
 
 LAWS = ['not_eventually', 'not_once', 'implies', 'eventually_eventually', 'once_once', 'since_expansion', 'until_expansion']
 
@@ -113,6 +113,11 @@ def gen(rng, tier):
         sc['signals'] = dict((v, world.gen_dense_signal(rng, rng.randint(1, 7), start_q=0, max_gap_q=4, resample_p=rp,
                                                        style=rng.choice([None, 'ints']))[0]) for v in vars_)
         sc['nbatches'] = rng.randint(1, 4)
+        if rng.random() < 0.1:
+            # a MHz logger: the whole time axis (stamps and bounds) is scaled by 2**-20, exactly - one tick is 2**-22 time units
+            sc['tscale'] = -20
+            k = 2.0 ** -20
+            sc['signals'] = dict((v, [[t * k, x] for t, x in sc['signals'][v]]) for v in sc['signals'])
     else:
         sc['n'] = rng.randint(1, 10) + (int(sg.horizon(lhs)) if pastify else 0)
         sc['data'] = world.gen_trace(rng, vars_, sc['n'])
@@ -136,6 +141,13 @@ def gen(rng, tier):
 
 def texts_of(sc, lhs, rhs):
     dense = sc['kind'].startswith('ct')
+    if dense and sc.get('tscale'):
+        from fractions import Fraction
+        k = Fraction(1, 2 ** (-sc['tscale']))
+
+        def bp(lo, hi, sp):
+            return '[' + sg.fmt_num(Fraction(lo, 4) * k) + sp.sep() + sg.fmt_num(Fraction(hi, 4) * k) + ']'
+        return 'out = ' + sg.to_text(lhs, None, bp) + ';', 'out = ' + sg.to_text(rhs, None, bp) + ';'
     if dense:
         return common.dense_text(lhs), common.dense_text(rhs)
     nt = sc.get('notation')
@@ -244,7 +256,7 @@ def run(sc):
             else:
                 lo, hi = max(fa[0][0], fb[0][0]), min(fa[-1][0], fb[-1][0])
                 if sc['pastify']:
-                    lo = max(lo, sg.horizon(lhs) * common.DENSE_TICK)
+                    lo = max(lo, sg.horizon(lhs) * common.DENSE_TICK * (2.0 ** sc['tscale'] if sc.get('tscale') else 1.0))
                 if not D.nondecreasing(a) or not D.nondecreasing(b):
                     bad = 'decreasing stamps'
             if not bad and lo <= hi:
@@ -274,6 +286,8 @@ def run(sc):
         r.probes['pastified'] += 1
     if dense:
         r.probes['dense_time'] += 1
+    if sc.get('tscale'):
+        r.probes['time_axis_scaled_to_sub_microsecond_ticks'] += 1
     if any(x[0] in sg.TEMPORAL for x in sg.walk(sc['p'])) or any(x[0] in sg.TEMPORAL for x in sg.walk(sc['q'])):
         r.probes['stateful_operand'] += 1
     if nontriv:
